@@ -131,6 +131,15 @@ func (db *DB) newMem(n int) (mem *memDB, err error) {
 	defer db.memMu.Unlock()
 
 	if db.frozenMem != nil {
+		// The caller retries: do not leave the journal just created behind.
+		if err := w.Close(); err != nil {
+			db.logf("journal@rotate closing unused @%d %q", fd.Num, err)
+		}
+		if err := db.s.stor.Remove(fd); err != nil {
+			db.logf("journal@rotate removing unused @%d %q", fd.Num, err)
+		} else {
+			db.s.reuseFileNum(fd.Num)
+		}
 		return nil, errHasFrozenMem
 	}
 
